@@ -19,6 +19,13 @@ from req_compile.repos.repository import Candidate, DistributionType, Repository
 from req_compile.repos.source import ReferenceSourceRepository
 
 
+def _is_location(text: str) -> bool:
+    """Whether a comment fragment is the URL or file path of a distribution."""
+    return text.startswith(("http://", "https://")) or text.endswith(
+        (".whl", ".gz", ".tgz", ".zip", ".tar", ".bz2")
+    )
+
+
 def _candidate_from_node(node: DependencyNode) -> Candidate:
     assert node.metadata is not None
     if node.metadata.version is None:
@@ -185,9 +192,7 @@ class SolutionRepository(Repository):
             sources = []
             for part in parts:
                 part = part.strip()
-                if part.startswith(("http://", "https://")) or part.endswith(
-                    (".whl", ".gz", ".tgz", ".zip", ".tar", ".bz2")
-                ):
+                if _is_location(part):
                     in_url = True
                     in_sources = False
                     url = part
@@ -219,6 +224,11 @@ class SolutionRepository(Repository):
                 _, _, source_part = source_part.partition("] ")
             sources = source_part.split(", ")
             url = ""
+            # One-line output with --urls: the URL follows the last requirer.
+            head, _, tail = sources[-1].rpartition(" ")
+            if head and _is_location(tail.partition("#")[0]):
+                sources[-1] = head
+                url = tail
 
         dist_hash: Optional[str] = None
         if len(hashes) > 1:
